@@ -69,12 +69,27 @@ def r3_query(ctx):
     eo = ctx.prog.cls(f'{N.EXPORTER}.ExportOptions')
     members = {m.name: m for m in ctx.ce.enum_canonical(ctx.prog.cls(N.TOKCAT))}
     n_ret = 0
+    exp_f = ctx.prog.func(f'{EXP}.export_string')
+
+    def export_call(node):
+        cs = [c for c in ast.walk(node) if isinstance(c, ast.Call) and src(c.func) == 'self.export_string']
+        return cs[0] if cs else None
+
     for cond, val, sp in symex.returns(gs):
         at = f'{gs.module.relpath}:{sp.path.end_node.lineno}'
         ats = G.atoms_of(cond)
         none_a, nonempty_a = f'{st_p} is None', f'nonempty({st_p})'
-        # a first line without any header (blank) may be answered with []
-        blank_as = [a for a in ats if a.endswith(" in [[], ['']]") and 'self.export_string' in a]
+        # the first exported line and the ways to say that it holds no header cell
+        call = None
+        for node, _ in sp.conds:
+            call = call or export_call(node)
+        call = call or export_call(val)
+        E = src(call) if call is not None else None
+        firsts = [f"{E}.split('\\n')[0]", f"{E}.split('\\n')[0:1][0]", f"{E}.partition('\\n')[0]", f"{E}.splitlines()[0]"] if E else []
+        tokens = [f"{f_}.split('\\t')" for f_ in firsts]
+        blank_true = {f"{t_} in [[], ['']]" for t_ in tokens} | {f"'' == {f_}" for f_ in firsts}
+        blank_false = {f'nonempty({f_})' for f_ in firsts} | set(firsts)
+        blank_as = [a for a in ats if a in blank_true or a in blank_false]
         extra = set(ats) - {none_a, nonempty_a} - set(blank_as)
         if extra or len(blank_as) > 1:
             ctx.violation('R3', at, gs.qualname, 'query-extra-condition', f'get_spine_types branches on `{sorted(extra or blank_as)}`')
@@ -82,7 +97,13 @@ def r3_query(ctx):
         n_ret += 1
         for none_v, empty_v, blank_v in ((True, False, False), (False, True, False), (False, False, False),
                                          (True, False, True), (False, False, True)):
-            if not G.evaluate(cond, {a: (none_v if a == none_a else (not empty_v) if a == nonempty_a else blank_v) for a in ats}):
+            def truth(a):
+                if a == none_a:
+                    return none_v
+                if a == nonempty_a:
+                    return not empty_v
+                return blank_v if a in blank_true else (not blank_v)
+            if not G.evaluate(cond, {a: truth(a) for a in ats}):
                 continue
             if blank_v and not blank_as:
                 continue
@@ -96,11 +117,10 @@ def r3_query(ctx):
                 continue
             # derived from export_string
             s = src(val)
-            calls = [c for c in ast.walk(val) if isinstance(c, ast.Call) and src(c.func) == 'self.export_string']
             okd = False
-            if calls:
-                c = calls[0]
-                b = F.bind_args(c, ctx.prog.func(f'{EXP}.export_string'), True)
+            if call is not None:
+                c = call
+                b = F.bind_args(c, exp_f, True)
                 o = b.get('options')
                 if F.is_name(b.get('document'), doc_p) and isinstance(o, ast.Call) and F.constructed_class(ctx, o, gs) is eo:
                     ob = F.bind_args(o, ctx.prog.find_method(eo, '__init__'), True)
@@ -111,8 +131,7 @@ def r3_query(ctx):
                       'the answer is derived from export_string(document, ExportOptions(spine_types=<same selection>, '
                       'token_categories=[HEADER]))',
                       f'the answer `{s[:100]}` is not derived from a HEADER-only export with the same spine_types')
-            first_tab = ".split('\\n')" in s and ".split('\\t')" in s and ('[0:1][0]' in s or ')[0].split' in s)
-            ctx.check(first_tab, 'R3', at, gs.qualname, 'query-first-line', 'the first exported line is split on TAB',
+            ctx.check(s in tokens, 'R3', at, gs.qualname, 'query-first-line', 'the first exported line is split on TAB',
                       f'the answer is `{s[:140]}`')
     ctx.expect_count('R3', 'returning paths of get_spine_types', n_ret, 2)
     pub = ctx.prog.func(f'{N.PUBLIC}.spine_types')
